@@ -65,6 +65,9 @@ TRANSFORMS = {
     ],
 }
 
+# dependency model (see check: patch_binrw): binrw's counted-vector reader without its integer fast paths
+PATCH_BINRW_COUNT = True
+
 HARNESSES = []
 FS256 = ["--max-field-sensitivity-array-size", "256"]   # keep concrete bytes of buffers up to 256 B constant for symex
 FS1K = ["--max-field-sensitivity-array-size", "1024"]
@@ -386,7 +389,7 @@ H("C09", "gearsets", "c09g_pipeline_witness", expect="witness-fail", bounds="ass
 for n, t in (("name8", "quick"), ("name1", "quick"), ("name63", "thorough")):
     H("C10", "fiin", "c10_entry_layout_" + n, tier=t, unwind=70, timeout=300, bounds="one record: all sizes, all digests (symbolic), concrete name " + n, encodes=["fiin::FIINEntry (BinWrite)"], cbmc_args=FS256)
 H("C10", "fiin", "c10_table_layout_one_entry", unwind=70, timeout=600, bounds="table with one entry: all sizes / digests", encodes=["fiin::FileInfo (BinWrite)"], cbmc_args=["--max-field-sensitivity-array-size", "2048"])
-H("C10", "fiin", "c10_parse_one_entry", tier="thorough", unwind=70, timeout=600, bounds="1120-byte table: all sizes / digest bytes, concrete name", encodes=["fiin::FileInfo::from_existing"], cbmc_args=["--max-field-sensitivity-array-size", "2048"])
+H("C10", "fiin", "c10_parse_one_entry", tier="thorough", unwind=70, timeout=400, bounds="1120-byte table: all sizes / digest bytes, concrete name", encodes=["fiin::FileInfo::from_existing"], cbmc_args=["--max-field-sensitivity-array-size", "2048"])
 H("C10", "fiin", "c10_pipeline_witness", expect="witness-fail", unwind=70, bounds="assert(false) twin", cbmc_args=FS256)
 
 # ================================================================================================
